@@ -393,10 +393,14 @@ def _time_ctx(duration):
 def check_time(ctx, key, q, duration):
     fc = _time_ctx(duration)
     if duration == 0.0:
-        bad = [(r, (r, q.decode(r, fc))) for r in (0, 1, 0x7FFF, 0xFFFF) if q.decode(r, fc) != 0.0]
-        _fails(ctx, key + "@0", "degenerate", bad, "decode(%r) = %r for duration 0")
-        if q.encode(0.0, fc) != 0:
-            ctx.fail("%s@0:degenerate-encode" % key, "encode(0.0) with duration 0", {"instance": key, "duration": 0.0})
+        try:
+            bad = [(r, (r, q.decode(r, fc))) for r in (0, 1, 0x7FFF, 0xFFFF) if q.decode(r, fc) != 0.0]
+            _fails(ctx, key + "@0", "degenerate", bad, "decode(%r) = %r for duration 0")
+            if q.encode(0.0, fc) != 0:
+                ctx.fail("%s@0:degenerate-encode" % key, "encode(0.0) with duration 0", {"instance": key, "duration": 0.0})
+        except Exception as e:
+            ctx.fail("%s@0:degenerate-raises:%s" % (key, type(e).__name__), "a zero-length range (duration 0) raised %r" % (e,),
+                     {"instance": key, "duration": 0.0})
         ctx.count("time_durations")
         return 5
     n = check_qfloat(ctx, key, q, lower=0.0, upper=duration, fake_ctx=fc, tag="duration=%r" % duration)
